@@ -552,6 +552,7 @@ def verify_fragment(world, contract, report=None, only_cfg=None, scope=None, dea
                 fr.loop_ids = ids
                 if world.is_numba(pyfn, fd):
                     ctx.safety = True
+                    ctx.opts['numba_error_model'] = world.numba_error_model(fd)
                 try:
                     fr.block(node.body)
                     outcome = 'completed'
